@@ -196,6 +196,19 @@ def gen_cases(rng, tier):
             ops.insert(r.randint(0, len(ops)), ["w", ["rec", ["test/r", [["string", "s"], ["varint", "n"]]],
                                                  [V.S("ok"), V.I(1)], {"_generated": V.gen_dt_spec(r, tzkinds=("utc",))}]])
         cases.append({"kind": "hist", "batches": [1, 2, 3, 1000], "ops": ops})
+    # several writer SESSIONS on one database file: the writer is closed and a new one opened on the same path, record
+    # types evolve across sessions (a type written in an earlier session gains fields in a later one)
+    r = rng.fork("sessions")
+    for _ in range(max(8, n // 6)):
+        ops = _gen_hist(r, tier)
+        ops = [o for o in ops if o[0] != "c"] + [["c"]]
+        for _ in range(r.randint(1, 2)):
+            ops.insert(r.randint(1, max(1, len(ops) - 1)), ["r"])
+        cases.append({"kind": "hist", "batches": [1, 3, 1000], "ops": ops})
+    base = ["evo/t", [["string", "name"], ["varint", "a"]]]
+    wider = ["evo/t", [["string", "name"], ["varint", "a"], ["string", "b"]]]
+    cases.append({"kind": "hist", "batches": [1, 1000], "ops": [["w", _gen_rec(r, base)], ["w", _gen_rec(r, base)], ["r"],
+                                                               ["w", _gen_rec(r, wider)], ["w", _gen_rec(r, base)], ["c"]]})
     r = rng.fork("names")
     for _ in range(max(6, n // 10)):
         descs = []
@@ -233,8 +246,9 @@ def gen_cases(rng, tier):
     for _ in range(1 if tier != "search" else 0):
         nm = r.choice(["sqlite_x/y", "SQLite_master", "sqlite_sequence", "SQLITE_stat1/a"])
         ok = ["test/ok", [["string", "s"]]]
-        cases.append({"kind": "hist", "batches": [1, 1000],
-                      "ops": [["w", _gen_rec(r, ok)], ["w", _gen_rec(r, [nm, [["string", "x"]]])], ["w", _gen_rec(r, ok)], ["c"]]})
+        cases.append({"kind": "hist", "batches": [1, 3, 1000],
+                      "ops": [["w", _gen_rec(r, ok)], ["w", _gen_rec(r, ok)], ["w", _gen_rec(r, [nm, [["string", "x"]]])],
+                              ["w", _gen_rec(r, ok)], ["c"]]})
     r = rng.fork("quote")
     for _ in range(max(10, n // 4)):
         cases.append({"kind": "quote", "table": _name(r) if r.chance(85) else r.choice(SQL_TYPE_WORDS),
@@ -373,6 +387,10 @@ def _run_hist(case, batch, d):
                     w.write(rec)
                 elif op[0] == "f":
                     w.flush()
+                elif op[0] == "r":
+                    # a new writer session on the same database file (the previous one is closed first)
+                    w.close()
+                    w = SqliteWriter(path, batch_size=batch)
                 else:
                     w.close()
                 st["outcome"] = "ok"
@@ -499,6 +517,9 @@ def _check_visible(where, st, visible, written):
     return None
 
 
+SOFT = "[refused by SQLite] "
+
+
 def _oracle_run(case, run):
     """Reference bookkeeping of the property: commit points are flush, close, a record type (name + fields) not
     written before, and every batch_size-th record; another connection sees exactly the rows written up to the
@@ -514,6 +535,8 @@ def _oracle_run(case, run):
 
     def everything():
         return {t: len(rows) for t, rows in written.items()}
+
+    soft = None    # a write refused by SQLite's DDL (recorded findings): reported only if nothing worse happens later
 
     for k, (op, st) in enumerate(zip(case["ops"], run["steps"])):
         where = f"batch_size={b} call #{k} ({op[0]})"
@@ -533,6 +556,13 @@ def _oracle_run(case, run):
                 unprintable = [v[1] for v in st["vals"] if v[0] == "unprintable"]
                 if unprintable and st["outcome"] in unprintable:
                     refused = True   # str(value) itself raises: the value has no text form to store
+                if st["outcome"] == "OperationalError" and not refused:
+                    # SQLite refused the CREATE TABLE / ADD COLUMN / INSERT of this record type (reserved name, columns
+                    # equal up to case, ...): the record is not stored. That is a failure of the property by itself
+                    # (kept in `soft`), but the history goes on: records written before and after it must survive.
+                    soft = soft or f"{where}: write raised {st['outcome']}: {st.get('msg')}"
+                    refused = True
+                    unprintable = ["OperationalError"]
                 if st["outcome"] != "ok" and not refused:
                     return f"{where}: write raised {st['outcome']}: {st.get('msg')}"
                 if refused and not unprintable:
@@ -563,6 +593,12 @@ def _oracle_run(case, run):
                 return f"{where}: flush raised {st['outcome']}"
             if opened:
                 cands = [everything()]
+        elif op[0] == "r":
+            if st["outcome"] != "ok":
+                return f"{where}: re-opening the database for writing raised {st['outcome']}: {st.get('msg')}"
+            if opened:
+                cands = [everything()]      # the old session's close commits
+            opened, count, seen = True, 0, set()
         else:
             if st["outcome"] != "ok":
                 return f"{where}: close raised {st['outcome']}"
@@ -608,7 +644,7 @@ def _oracle_run(case, run):
     for t in per:
         if t not in written:
             return f"batch_size={b}: SqliteReader yields records of a type {t!r} never written"
-    return None
+    return (SOFT + soft) if soft else None
 
 
 def _read_ok(exp, got):
@@ -651,9 +687,12 @@ def oracle(case, obs):
         if names != want:
             return f"quoted identifiers of {obs['sql']!r} lex as {names!r}, not as the names {want!r}"
         return None
+    soft = None
     for run in obs["runs"]:
         f = _oracle_run(case, run)
-        if f:
+        if f and f.startswith(SOFT):
+            soft = soft or f[len(SOFT):]      # a DDL refusal: look at the other batch sizes before settling for it
+        elif f:
             return f
     # batch-size independence of the stored content (histories that end closed)
     closed = any(o[0] == "c" for o in case["ops"])
@@ -665,7 +704,7 @@ def oracle(case, obs):
                         f"batch_size={run['batch']}")
             if run["read"] != obs["runs"][0]["read"]:
                 return f"SqliteReader output differs between batch sizes {obs['runs'][0]['batch']} and {run['batch']}"
-    return None
+    return soft
 
 
 # ------------------------------------------------------------------ model
@@ -675,6 +714,8 @@ def model_op(case, obs):
         return None
     if case["kind"] == "quote":
         return {"op": "sqlquote", "name": V.enc_str(case["table"]), "rest": V.enc_str(" (")}
+    if any(op[0] == "r" for op in case["ops"]):
+        return None      # several writer sessions on one file: covered by the real-code oracle, not by the model
     run0 = obs["runs"][0]
     hist = []
     for op, st in zip(case["ops"], run0["steps"]):
